@@ -375,6 +375,60 @@ func GenScenario(p *Program, r *Rand, exec uint64, tagName string, k int) *Scena
 			o.Nest = true
 			s.Out[f.ID] = o
 		}
+	case "failprompt":
+		// Two functions that depend on nothing but the directive's arguments: one
+		// is held until the directive has returned, the other one fails (error or
+		// panic) meanwhile. A fail-fast directive reports the first failure
+		// without waiting for functions that are still running.
+		var roots []*Fn
+		if p.Flow != nil {
+			isParam := map[int]bool{}
+			for _, t := range p.Flow.Params {
+				isParam[t] = true
+			}
+			for i := range p.Flow.Tasks {
+				t := &p.Flow.Tasks[i]
+				ok := t.Pred == nil && !t.Fallback
+				for _, in := range t.Fn.Ins {
+					if !isParam[in] {
+						ok = false
+					}
+				}
+				if ok {
+					roots = append(roots, &t.Fn)
+				}
+			}
+		} else {
+			for i := range p.Par.Items {
+				if it := &p.Par.Items[i]; it.Coll == nil {
+					for k := range it.Fns {
+						roots = append(roots, &it.Fns[k])
+					}
+				}
+			}
+		}
+		if len(roots) < 2 || p.ConstCOE == 1 || (p.ConstConc > 0 && p.ConstConc < 2) {
+			break // (an ordinary run)
+		}
+		h := roots[k%len(roots)]
+		f := roots[(k+1+(k/len(roots))%(len(roots)-1))%len(roots)]
+		if f == h {
+			f = roots[(k+1)%len(roots)]
+		}
+		o := s.Out[h.ID]
+		o.Gate = true
+		s.Out[h.ID] = o
+		if f.Err && k%2 == 0 {
+			keep(f.ID, Outcome{Kind: OErr, ErrKind: k % 8})
+		} else {
+			keep(f.ID, Outcome{Kind: OPanic, PanicKind: k % NumPanicKinds})
+		}
+		s.COE = false
+		if s.Conc == 1 {
+			s.Conc = 2
+		}
+		s.GateOpen = "failreturn"
+		s.WatchFns = []int{h.ID}
 	case "goexit":
 		// one to three functions kill their goroutine with runtime.Goexit
 		var cand []*Fn
